@@ -945,9 +945,13 @@ var blockRules = map[BlockKind]blockRule{
 	HTMLBlockKind: {
 		match: func(p *lineParser) bool {
 			if htmlBlockConditions[p.ContainerHTMLCondition()].endCondition(p.BytesAfterIndent()) {
-				if !p.IsRestBlank() {
-					p.CollectInline(RawHTMLKind, len(p.BytesAfterIndent()))
+				if p.IsRestBlank() {
+					// The blank line ends the block without being part of it.
+					// Leave it to be processed as a blank line:
+					// it can make an enclosing list loose.
+					return false
 				}
+				p.CollectInline(RawHTMLKind, len(p.BytesAfterIndent()))
 				p.ConsumeLine()
 				return false
 			}
